@@ -22,7 +22,9 @@ Schedule (all CrossHair-symbolic): num_slots (1..2), lifetime (1..LMAX); per ste
 LOADER = the earliest lookup task blocked on a pending load of its key (in the repository's code that is the task
 whose lookup created the load), FOLLOWER = a later task blocked on the same key.  mode 0: every schedule (the claim);
 mode 1: >= 1 cancel and every cancel hits a LOADER; mode 2: >= 1 cancel and every cancel hits a FOLLOWER (both are
-sub-families of mode 0, run at small k so that each mechanism is reported under its own name).
+sub-families of mode 0, run at small k so that each mechanism is reported under its own name); mode 4: no cancel hits a
+LOADER or a FOLLOWER (the schedules in which the two known finding classes cannot occur: a shard of mode 0 that is refuted
+by a known class is excused as a whole, so without mode 4 a new defect in the same shard would be masked).
 Oracle (what C26 states):
   bounded   the cache never holds more than num_slots entries (len of its entry dict, at every step)
   fresh     a returned value finished loading less than `lifetime` ago, and is a value for the key asked
@@ -268,14 +270,14 @@ async def scenario(nt, slots, lifetime, acts, keys, dts, drains, mode, trace=Non
                     raise sched.Prune()
                 kd = kind(i)
                 if kd == 'follower':
-                    if mode == 1:
+                    if mode == 1 or mode == 4:
                         raise sched.Prune()
                     stats['follower_cancels'] += 1
                 elif kd == 'loader':
-                    if mode == 2:
+                    if mode == 2 or mode == 4:
                         raise sched.Prune()
                     stats['loader_cancels'] += 1
-                elif mode > 0:
+                elif mode in (1, 2):
                     raise sched.Prune()
                 cancelled[i] = True
                 tasks[i].cancel()
